@@ -11,7 +11,8 @@ against tests/scanner/*-expected.gir by vt/scan/c02_calib.py):
      enum / flags / callback / alias typedefs, foreign typedefs, an unknown typedef) at
      pointer depth 0..2 with every const placement, in parameter / return position of a
      function, a callback typedef (thorough: method, function-pointer field), as struct
-     field, fixed-size array field, bit-field, and constant (cast) position;
+     field, fixed-size array field, bit-field, and constant (cast) position (quick: pointer
+     depth 2 and the function-pointer-field host only for a representative subset of bases);
  (D) default ownership after a bare direction annotation ((out), (inout), (out caller-/
      callee-allocates), (in)) - the only way to reach the documented out/inout defaults;
  (A) every sequence (with repetition, hence every arrangement) over {callback, user-data
@@ -36,6 +37,7 @@ DIR_ANNS = ['out', 'inout', 'out caller-allocates', 'out callee-allocates', 'in'
 DEPTH2_QUICK = ['char', 'gchar', 'unsigned char', 'int', 'guint8', 'gsize', 'void', 'gpointer', 'gconstpointer',
                 'FooRec', 'FooEn', 'FooCb', 'GList', 'GObject', 'GError', 'XUnknown', 'long int', 'uint32_t',
                 'gboolean', 'FooInt']
+VFUNC_QUICK = ['int', 'char', 'gpointer', 'gconstpointer', 'void', 'FooRec', 'FooCb', 'GList', 'guint8']
 DIR_BASES = ['int', 'char', 'gchar', 'guint8', 'double', 'gboolean', 'FooRec', 'FooOpq', 'FooUni', 'FooEn', 'FooCb',
              'FooInt', 'gpointer', 'void', 'GList', 'GHashTable', 'GByteArray', 'GObject', 'GValue', 'GVariant',
              'GQuark', 'XUnknown', 'GStrv']
@@ -95,12 +97,10 @@ def spellings(tier):
     out = []
     for base in all_bases():
         for bq in (False, True):
-            if base == 'void' and bq:
-                pass
             out.append(Sp(base, bq, ()))
             for p0 in (False, True):
                 out.append(Sp(base, bq, (p0,)))
-                if True:
+                if tier == 'thorough' or base in DEPTH2_QUICK:
                     for p1 in (False, True):
                         out.append(Sp(base, bq, (p0, p1)))
     return out
@@ -118,6 +118,8 @@ def positions_for(sp, tier):
     pos = ['param', 'ret', 'cbparam', 'cbret', 'field', 'farray']
     if tier == 'thorough':
         pos += ['mparam', 'mret', 'vparam', 'vret', 'ufield', 'param2']
+    elif sp.base in VFUNC_QUICK and d <= 1:
+        pos += ['vparam', 'vret']
     if d == 0 and kind in ('int', 'enum', 'flags', 'alias-int'):
         pos.append('fbits')
         if not sp.bq:
@@ -160,15 +162,13 @@ def arr_cases(tier):
             for cb in cbs:
                 for un in uns:
                     for h in hosts:
-                        if n == 0 and h == 'vfunc':
-                            pass
                         out.append({'kind': 'arr', 'seq': seq, 'cb': cb, 'uname': un, 'host': h})
     return out
 
 
 # ------------------------------------------------------------------ building ---
 def build(case):
-    """-> (decls, comments)"""
+    """-> (numbered decls, comments, number of prelude decls)"""
     k = case['kind']
     decls = prelude(case_needs(case)[0])
     npre = len(decls)
@@ -545,6 +545,10 @@ def viol_key(case, aspect, expected, got):
     if case['kind'] == 'type' and aspect.endswith(':name'):
         sp = Sp.from_json(case['sp'])
         return 'name:%s:depth%d%s:got %s' % (sp.base, sp.depth, ':return' if expected == ABSENT else '', got)
+    in_field_cb = case.get('pos') in ('vparam', 'vret') or case.get('host') == 'vfunc'
+    if in_field_cb and aspect.endswith(':nullable') and expected == '1' and got is None:
+        # one systematic deviation: callbacks written inline in a record field
+        return 'nullable:untyped-pointer-in-function-pointer-field'
     return '%s|%s' % (case_key(case), aspect)
 
 
@@ -607,7 +611,7 @@ def run(ctx):
                  'scope, throws, parameter list, bits, fixed-size) is compared with the three-valued reference model; '
                  'non-trivial = case with at least one MUST/MUST-NOT observable',
             bounds={'tier': ctx.tier, 'base_spellings': len(all_bases()), 'spellings': nsp,
-                    'pointer_depth': 2, 'depth2_bases': 'all',
+                    'pointer_depth': 2, 'depth2_bases': 'all' if ctx.tier == 'thorough' else DEPTH2_QUICK,
                     'type_cases': len(type_cases(ctx.tier)), 'dir_cases': len(dir_cases(ctx.tier)),
                     'arrangement_max_params': 5 if ctx.tier == 'thorough' else 4,
                     'arrangement_cases': len(arr_cases(ctx.tier)), 'user_data_names': UNAMES,
